@@ -13,7 +13,7 @@ TRUSTED_BASE = [
 PROPS = {
     "C01": {
         "module": "Cdecao.Props.C01",
-        "theorems": ["Props.C01", "Props.C01_node", "Props.C01_valid"],
+        "theorems": ["Props.C01", "Props.C01_node", "Props.C01_valid", "Props.C01_C08_cde"],
         "streams": ["node", "node-rooms", "solve"],
     },
     "C02": {
@@ -51,7 +51,7 @@ PROPS = {
     "C08": {
         "module": "Cdecao.Props.C08",
         "theorems": ["Props.C08_score", "Props.C08_score_valid", "Props.C08_max_ge", "Props.C08_quality_identity", "Props.C08_quality_lack",
-                     "Props.C08_combined", "Props.C08_quality_max", "Props.C08_quality_engine"],
+                     "Props.C08_combined", "Props.C08_quality_max", "Props.C08_quality_engine", "Props.C01_C08_cde"],
         "streams": ["node", "solve", "cli-simple", "e2e-cde"],
     },
     "C09": {
@@ -61,7 +61,7 @@ PROPS = {
     },
     "C10": {
         "module": "Cdecao.Props.C10",
-        "theorems": ["Props.C10_node", "Props.C10_tree"],
+        "theorems": ["Props.C10_node", "Props.C10_tree", "Props.C10_cli", "Props.C10_cde"],
         "streams": ["node", "node-rooms", "solve", "cli-simple"],
     },
     "C11": {
@@ -131,7 +131,7 @@ LEVELS = {
             "note": _NODE + " The effective size is the documented formula as evaluated in f32 (the paired-run generator includes the f32/f64 corner)."},
     "C03": {"text": "Theorem Props.C03: two finished runs of the engine model on a bounded tree agree on found/score for all thread counts and schedules. Props.C03_caobab discharges the premise for the caobab node solver (valid instances outside the F1 class, with or without rooms, any float behaviour); inside the F1 class Bounded stays a hypothesis and real runs under 3-6 seeded schedules x thread counts must agree.",
             "note": _ENG + " Partial only inside the F1 class (instructors with own choices of non-fixed courses), where `Bounded` is not proved."},
-    "C04": {"text": "Theorems Props.C04_no_deadlock, C04_done_means_finished, C04_stats_step, C04_bounded_work and C04_stats_at_done (at AllDone: executed = no-solution + infeasible + feasible and generated = executed + bound, for every reachable run of the product system), C04_done_absorbing, over the engine model, all T >= 1 and schedules incl. spurious wake-ups; every real run under the shim is replayed through the model with all six counters compared, and the shim's deadlock detector and step budget watch the real code.",
+    "C04": {"text": "Theorems Props.C04_no_deadlock, C04_done_means_finished, C04_stats_step, C04_bounded_work C04_exactly_once_at_done (ghost history: at AllDone the multiset of generated subproblems = solved ⊎ bounded, none twice, none lost, and the counters are the lengths), C04_run_bound_init (a run from init with at most s wake events has at most W root + 3T + 3(T² + s) non-wake events) and C04_stats_at_done (at AllDone: executed = no-solution + infeasible + feasible and generated = executed + bound, for every reachable run of the product system), C04_done_absorbing, over the engine model, all T >= 1 and schedules incl. spurious wake-ups; every real run under the shim is replayed through the model with all six counters compared, and the shim's deadlock detector and step budget watch the real code.",
             "note": _ENG},
     "C05": {"text": "Writer theorems Props.C05_regs / C05_courses / C05_no_cancelled_assignment over the model of io::cdedb::write; end to end through the REAL binary: generated exports x option combinations -> import file -> (a) independent reference model of the partial import + the clauses of C05 in database ids (Python), (b) the Lean models: reader (CD.read), decoded assignment, writer equality, HardOK and RoomOK evaluated by the driver on the problem the model reads.",
             "note": "io/cdedb.rs reader and writer are modelled by CD.read / CD.writeRegs / CD.writeCourses from the serde_json value on (bytes -> value is serde_json's). The composition theorem `Consistent` (reader + HardOK + writer) is not assembled yet: partial."},
